@@ -1079,6 +1079,8 @@ impl Matcher {
         #[cfg(corro_verif)]
         let mut verif_gen =
             crate::updates::verif_hooks::FLUSH_GEN.load(std::sync::atomic::Ordering::SeqCst);
+        #[cfg(corro_verif)]
+        let mut verif_armed = false;
 
         let mut purge_changes_interval = tokio::time::interval(Duration::from_secs(300));
 
@@ -1128,10 +1130,19 @@ impl Matcher {
                             .as_mut()
                             .reset((Instant::now() + vh::MANUAL_TICK).into());
                         let flush_gen = vh::FLUSH_GEN.load(std::sync::atomic::Ordering::SeqCst);
-                        if flush_gen == verif_gen {
+                        if flush_gen != verif_gen {
+                            // a cut was requested: go round once more first, so that candidates
+                            // sent before the request (the channel is polled before this branch)
+                            // are taken in before the batch is handled
+                            verif_gen = flush_gen;
+                            verif_armed = true;
+                            process_changes_deadline.as_mut().reset(Instant::now().into());
                             continue;
                         }
-                        verif_gen = flush_gen;
+                        if !verif_armed {
+                            continue;
+                        }
+                        verif_armed = false;
                         buf_count = 0;
                         if let Err(e) = block_in_place(|| {
                             self.handle_candidates(&mut state_conn, std::mem::take(&mut buf), false)
